@@ -80,6 +80,8 @@ def main(tier):
     gfrows.check_dot(rep, 33)
     import baseloops
     baseloops.check(rep, 'EC', ['ec_encode_data_base', 'gf_vect_dot_prod_base', 'ec_init_tables_base'], 5)
+    import tbladvance
+    tbladvance.check(rep, 'EC', {'ec_dot_prod'}, 150)
     import eclayout
     eclayout.check(rep, 'EC', ['ec_encode_data_base', 'gf_vect_dot_prod_base'], 3, writer=True)
     return rep.finish()
